@@ -1,17 +1,34 @@
-"""C13 -- storages are isolated namespaces with map-like create/delete/find/list"""
+"""C13 -- storages are isolated namespaces with map-like create/delete/find/list.
+Sequential: differential runs against the extracted model + Spec oracle (theorem C13_refines_map_of_maps).
+Concurrent clause (of several concurrent creates / deletes of one name exactly one reports success): real
+create/delete/find races under the scheduler, judged by the verified linearizability checker on the name
+(create = unique insert, delete = remove, find = get)."""
 from . import common as C
+from . import conc
 from . import seq
 
 CATS = ["res"]
 GEN = dict(scans=True, dumps=False, storages=4, with_storage_ops=True)
 
 
+def conc_part(res):
+    conc.conc_phase(res, "c13", ("lin", "deadlock"), ["storages"], (), False, 150 if res.tier == "quick" else 1000,
+                    ("preempt1",) if res.tier == "quick" else ("preempt1", "preempt2", "pct"),
+                    4 if res.tier == "quick" else 16, gen=conc.gen_storage_race, label="concurrent_storage_ops")
+
+
 def run(tier, seed):
     res = C.Result("C13", tier, seed, level="proof")
-    res.assumptions = ["sequential histories; concurrent create/create and delete/delete races are not in a theorem "
-                       "(they reduce to unique-insert / remove on the outer tree, covered for one border by C01)"]
-    return seq.run_seq_property(res, "c13", CATS, 40, 300, gen_kwargs=GEN)
+    res.assumptions = ["the theorem is about sequential histories; concurrent create/create, delete/delete and "
+                       "create/delete/find races are explored on the real library under the scheduler and judged by "
+                       "the verified linearizability checker (they reduce to unique-insert / remove on the outer tree)"]
+    return seq.run_seq_property(res, "c13", CATS, 40, 300, gen_kwargs=GEN, post=conc_part)
 
 
 def replay(path, tier, seed):
+    import json
+    r = json.load(open(path))
+    if str(r.get("kind", "")).startswith("conc-"):
+        print(json.dumps(r, indent=1)[:3000])
+        return 1
     return seq.replay_seq("C13", "c13", path, CATS)
